@@ -143,3 +143,191 @@ package node_info
 //@   ensures !(task.ResourceRequestType == "Regular" || task.ResourceRequestType == "MigInstance") && ri.fitsBase(task.ResReq.BaseResource, nodeNonAllocatedResources.BaseResource) && validPortion(ni, task.ResReq) && floor(nodeNonAllocatedResources.gpus) >= task.ResReq.count ==> result
 //@   ensures !(task.ResourceRequestType == "Regular" || task.ResourceRequestType == "MigInstance") && task.ResReq.count == 1 ==> result == (ri.fitsBase(task.ResReq.BaseResource, nodeNonAllocatedResources.BaseResource) && validPortion(ni, task.ResReq) && floor(nodeNonAllocatedResources.gpus) + ite(exists g in ni.UsedSharedGPUsMemory :: fitsGpuGroup(ni, task.ResReq, g), 1, 0) >= 1)
 //@ end
+
+// ---- C14/C01: what a pod is charged to the (non-shared) node accounting ------------------------------
+// cpu, memory, every scalar and MIG instance of the accepted resources; GPUs = whole GPUs + DRA GPUs, but 0 for a pod that
+// received a shared (fractional) GPU: shared devices are accounted per GPU group (C02).
+//@ define acceptedReadable(task *pod_info.PodInfo) bool = task != nil && task.AcceptedResource != nil && task.AcceptedResource.scalarResources != nil
+//@ define chargedGpus(task *pod_info.PodInfo) real = ite(task.ResourceReceivedType == "Fraction", 0.0, ri.reqGpus(task.AcceptedResource.GpuResourceRequirement) + real(task.AcceptedResource.GetDraGpusCount()))
+//@ define chargedScalar(task *pod_info.PodInfo, k v1.ResourceName) int = ite(k in task.AcceptedResource.scalarResources, task.AcceptedResource.scalarResources[k], task.AcceptedResource.migResources[k])
+//@ define chargedHas(task *pod_info.PodInfo, k v1.ResourceName) bool = k in task.AcceptedResource.scalarResources || k in task.AcceptedResource.migResources
+
+//@ func getAcceptedTaskResourceWithoutSharedGPU
+//@   props C01 C14
+//@   requires acceptedReadable(task)
+//@   fresh
+//@   ensures result.milliCpu == task.AcceptedResource.milliCpu && result.memory == task.AcceptedResource.memory
+//@   ensures result.gpus == chargedGpus(task)
+//@   ensures fresh(result.scalarResources)
+//@   ensures forall k v1.ResourceName :: result.scalarResources[k] == chargedScalar(task, k) && (k in result.scalarResources <==> chargedHas(task, k))
+//@ end
+
+// ---- C02/C14: per-GPU-group accounting of shared (fractional) pods ---------------------------------------
+// code-derived well-formedness: the four per-group maps exist and are different objects; vectors have the layout length
+//@ define gpuMapsWF(ni *NodeInfo) bool = ni.UsedSharedGPUsMemory != nil && ni.ReleasingSharedGPUsMemory != nil && ni.AllocatedSharedGPUsMemory != nil && ni.ReleasingSharedGPUs != nil && ni.UsedSharedGPUsMemory != ni.ReleasingSharedGPUsMemory && ni.UsedSharedGPUsMemory != ni.AllocatedSharedGPUsMemory && ni.ReleasingSharedGPUsMemory != ni.AllocatedSharedGPUsMemory
+//@ define vecWF(ni *NodeInfo) bool = ni.VectorMap != nil && len(ni.IdleVector) == len(ni.VectorMap.resourceNames) && len(ni.UsedVector) == len(ni.VectorMap.resourceNames) && len(ni.ReleasingVector) == len(ni.VectorMap.resourceNames)
+//@ define nodeWF(ni *NodeInfo) bool = ni != nil && ni.Node != nil && ni.Idle != nil && ni.Releasing != nil && ni.Used != nil && ni.Allocatable != nil && ni.Idle != ni.Releasing && ni.Idle != ni.Used && ni.Used != ni.Releasing && gpuMapsWF(ni) && vecWF(ni)
+
+//@ func (*NodeInfo).getNumberOfUsedSharedGPUs
+//@   props C02 C14
+//@   requires ni != nil
+//@   pure
+//@   loop 1
+//@     invariant numberOfSharedGPUs >= 0
+//@   ensures result >= 0
+//@ end
+
+//@ func (*NodeInfo).getNumberOfUsedGPUs
+//@   props C02 C14
+//@   requires ni != nil && ni.Used != nil
+//@   pure
+//@ end
+
+//@ func (*NodeInfo).GetNumberOfGPUsInNode
+//@   props C02 C14
+//@   requires ni != nil && ni.Node != nil && ni.Allocatable != nil
+//@   pure
+//@ end
+
+//@ func (*NodeInfo).markSharedGpuAsReleasing
+//@   props C02 C14
+//@   inline
+//@ end
+//@ func (*NodeInfo).unmarkSharedGpuAsReleasing
+//@   props C02 C14
+//@   inline
+//@ end
+
+//@ func (*NodeInfo).isPipelinedToReleasingGpu
+//@   props C02 C14
+//@   requires ni != nil && task != nil && task.ResReq != nil
+//@   pure
+//@   ensures result == (ni.UsedSharedGPUsMemory[gpuGroup] + needMem(ni, task.ResReq) == ni.ReleasingSharedGPUsMemory[gpuGroup] - needMem(ni, task.ResReq) || (ni.UsedSharedGPUsMemory[gpuGroup] == 0 && ni.ReleasingSharedGPUsMemory[gpuGroup] == 0))
+//@ end
+
+// C14/C02: a sharer of GPU group g with memory need m is accounted per status:
+//   every status: used[g] += m;  Releasing: releasing[g] += m, allocated[g] += m;  Pipelined: releasing[g] -= m;
+//   other (allocated/bound/running...): allocated[g] += m.
+// The releasing marker is set when all used memory of the group is releasing (with one whole GPU added to Releasing),
+// and cleared (one GPU taken from Releasing) when a non-releasing sharer arrives on a marked group.
+// Idle loses at most one whole GPU, and only when the group opens (count of shared groups has no closed form: see report).
+//@ func (*NodeInfo).addSharedTaskResourcesPerPodGroup
+//@   props C02 C14
+//@   requires nodeWF(ni) && task != nil && task.ResReq != nil
+//@   modifies ni.UsedSharedGPUsMemory[gpuGroup], ni.ReleasingSharedGPUsMemory[gpuGroup], ni.AllocatedSharedGPUsMemory[gpuGroup], ni.ReleasingSharedGPUs[gpuGroup], ni.Idle.gpus, ni.Releasing.gpus, ni.IdleVector[*], ni.ReleasingVector[*]
+//@   ensures [used] ni.UsedSharedGPUsMemory[gpuGroup] == old(ni.UsedSharedGPUsMemory[gpuGroup]) + needMem(ni, task.ResReq) && gpuGroup in ni.UsedSharedGPUsMemory
+//@   ensures [releasing] ni.ReleasingSharedGPUsMemory[gpuGroup] == old(ni.ReleasingSharedGPUsMemory[gpuGroup]) + ite(task.Status == pod_status.Releasing, needMem(ni, task.ResReq), ite(task.Status == pod_status.Pipelined, 0 - needMem(ni, task.ResReq), 0))
+//@   ensures [allocated] ni.AllocatedSharedGPUsMemory[gpuGroup] == old(ni.AllocatedSharedGPUsMemory[gpuGroup]) + ite(task.Status == pod_status.Pipelined, 0, needMem(ni, task.ResReq))
+//@   ensures [allocatedDom] gpuGroup in ni.AllocatedSharedGPUsMemory <==> (old(gpuGroup in ni.AllocatedSharedGPUsMemory) || task.Status != pod_status.Pipelined)
+//@   ensures [marker] markedReleasing(ni, gpuGroup) == ite(task.Status == pod_status.Releasing, old(markedReleasing(ni, gpuGroup)) || ni.UsedSharedGPUsMemory[gpuGroup] == ni.ReleasingSharedGPUsMemory[gpuGroup], ite(task.Status == pod_status.Pipelined, old(markedReleasing(ni, gpuGroup)), false))
+//@   ensures [releasingGpus] ni.Releasing.gpus == old(ni.Releasing.gpus) + ite(task.Status == pod_status.Releasing, ite(!old(markedReleasing(ni, gpuGroup)) && ni.UsedSharedGPUsMemory[gpuGroup] == ni.ReleasingSharedGPUsMemory[gpuGroup], 1.0, 0.0), ite(task.Status == pod_status.Pipelined, ite(old(ni.UsedSharedGPUsMemory[gpuGroup]) == old(ni.ReleasingSharedGPUsMemory[gpuGroup]), 0.0 - 1.0, 0.0), ite(old(markedReleasing(ni, gpuGroup)), 0.0 - 1.0, 0.0)))
+//@   ensures [idleGpus] ni.Idle.gpus == old(ni.Idle.gpus) || (ni.Idle.gpus == old(ni.Idle.gpus) - 1.0 && task.Status != pod_status.Pipelined && ite(task.Status == pod_status.Releasing, ni.UsedSharedGPUsMemory[gpuGroup] == ni.ReleasingSharedGPUsMemory[gpuGroup], old(ni.UsedSharedGPUsMemory[gpuGroup]) <= 0))
+//@   ensures nodeWF(ni)
+//@ end
+
+// C14/C02: removal mirrors the addition for every status (used[g] -= m; Releasing: releasing[g] -= m, allocated[g] -= m;
+// Pipelined: releasing[g] += m; other: allocated[g] -= m). Idle gains at most one whole GPU, only when the group closes.
+//@ func (*NodeInfo).removeSharedTaskResourcesPerPodGroup
+//@   props C02 C14
+//@   requires nodeWF(ni) && task != nil && task.ResReq != nil
+//@   modifies ni.UsedSharedGPUsMemory[gpuGroup], ni.ReleasingSharedGPUsMemory[gpuGroup], ni.AllocatedSharedGPUsMemory[gpuGroup], ni.ReleasingSharedGPUs[gpuGroup], ni.Idle.gpus, ni.Releasing.gpus, ni.IdleVector[*], ni.ReleasingVector[*]
+//@   ensures [used] ni.UsedSharedGPUsMemory[gpuGroup] == old(ni.UsedSharedGPUsMemory[gpuGroup]) - needMem(ni, task.ResReq)
+//@   ensures [releasing] ni.ReleasingSharedGPUsMemory[gpuGroup] == old(ni.ReleasingSharedGPUsMemory[gpuGroup]) - ite(task.Status == pod_status.Releasing, needMem(ni, task.ResReq), ite(task.Status == pod_status.Pipelined, 0 - needMem(ni, task.ResReq), 0))
+//@   ensures [allocated] ni.AllocatedSharedGPUsMemory[gpuGroup] == old(ni.AllocatedSharedGPUsMemory[gpuGroup]) - ite(task.Status == pod_status.Pipelined, 0, needMem(ni, task.ResReq))
+//@   ensures [marker] markedReleasing(ni, gpuGroup) == ite(task.Status == pod_status.Releasing, old(markedReleasing(ni, gpuGroup)) && ni.UsedSharedGPUsMemory[gpuGroup] > 0, ite(task.Status == pod_status.Pipelined, old(markedReleasing(ni, gpuGroup)), old(markedReleasing(ni, gpuGroup)) || gpuReleasingFromShared(ni, gpuGroup)))
+//@   ensures [releasingGpus] ni.Releasing.gpus == old(ni.Releasing.gpus) + ite(task.Status == pod_status.Releasing, ite(old(markedReleasing(ni, gpuGroup)) && ni.UsedSharedGPUsMemory[gpuGroup] <= 0, 0.0 - 1.0, 0.0), ite(task.Status == pod_status.Pipelined, ite(old(ni.UsedSharedGPUsMemory[gpuGroup]) == old(ni.ReleasingSharedGPUsMemory[gpuGroup]) || (ni.UsedSharedGPUsMemory[gpuGroup] == 0 && ni.ReleasingSharedGPUsMemory[gpuGroup] == 0), 1.0, 0.0), ite(!old(markedReleasing(ni, gpuGroup)) && gpuReleasingFromShared(ni, gpuGroup), 1.0, 0.0)))
+//@   ensures [idleGpus] ni.Idle.gpus == old(ni.Idle.gpus) || (ni.Idle.gpus == old(ni.Idle.gpus) + 1.0 && task.Status != pod_status.Pipelined && ni.UsedSharedGPUsMemory[gpuGroup] <= 0)
+//@   ensures nodeWF(ni)
+//@ end
+
+// groups a pod is attached to / pairwise distinct (C02: "N distinct devices")
+//@ define inGroups(task *pod_info.PodInfo, g string) bool = exists i int :: 0 <= i && i < len(task.GPUGroups) && task.GPUGroups[i] == g
+//@ define distinctGroups(task *pod_info.PodInfo) bool = forall i int, j int :: 0 <= i && i < j && j < len(task.GPUGroups) ==> task.GPUGroups[i] != task.GPUGroups[j]
+// per-group memory deltas of a sharer, by status
+//@ define relDelta(ni *NodeInfo, task *pod_info.PodInfo) int = ite(task.Status == pod_status.Releasing, needMem(ni, task.ResReq), ite(task.Status == pod_status.Pipelined, 0 - needMem(ni, task.ResReq), 0))
+//@ define allocDelta(ni *NodeInfo, task *pod_info.PodInfo) int = ite(task.Status == pod_status.Pipelined, 0, needMem(ni, task.ResReq))
+
+// C14/C02: a shared pod is accounted on each of its GPU groups and on no other group.
+//@ func (*NodeInfo).addSharedTaskResources
+//@   props C02 C14
+//@   requires nodeWF(ni) && task != nil && task.ResReq != nil
+//@   modifies ni.UsedSharedGPUsMemory[*], ni.ReleasingSharedGPUsMemory[*], ni.AllocatedSharedGPUsMemory[*], ni.ReleasingSharedGPUs[*], ni.Idle.gpus, ni.Releasing.gpus, ni.IdleVector[*], ni.ReleasingVector[*]
+//@   loop 1
+//@     invariant 0 - 1 <= rangeindex && rangeindex < len(task.GPUGroups) && nodeWF(ni)
+//@     invariant forall g string :: !inGroups(task, g) ==> ni.UsedSharedGPUsMemory[g] == old(ni.UsedSharedGPUsMemory[g]) && ni.ReleasingSharedGPUsMemory[g] == old(ni.ReleasingSharedGPUsMemory[g]) && ni.AllocatedSharedGPUsMemory[g] == old(ni.AllocatedSharedGPUsMemory[g]) && markedReleasing(ni, g) == old(markedReleasing(ni, g)) && (g in ni.AllocatedSharedGPUsMemory <==> old(g in ni.AllocatedSharedGPUsMemory)) && (g in ni.UsedSharedGPUsMemory <==> old(g in ni.UsedSharedGPUsMemory))
+//@     invariant distinctGroups(task) ==> forall i int :: 0 <= i && i < len(task.GPUGroups) ==> ni.UsedSharedGPUsMemory[task.GPUGroups[i]] == old(ni.UsedSharedGPUsMemory[task.GPUGroups[i]]) + ite(i <= rangeindex, needMem(ni, task.ResReq), 0)
+//@     invariant distinctGroups(task) ==> forall i int :: 0 <= i && i < len(task.GPUGroups) ==> ni.ReleasingSharedGPUsMemory[task.GPUGroups[i]] == old(ni.ReleasingSharedGPUsMemory[task.GPUGroups[i]]) + ite(i <= rangeindex, relDelta(ni, task), 0)
+//@     invariant distinctGroups(task) ==> forall i int :: 0 <= i && i < len(task.GPUGroups) ==> ni.AllocatedSharedGPUsMemory[task.GPUGroups[i]] == old(ni.AllocatedSharedGPUsMemory[task.GPUGroups[i]]) + ite(i <= rangeindex, allocDelta(ni, task), 0)
+//@     invariant rangeindex == 0 - 1 ==> ni.Idle.gpus == old(ni.Idle.gpus) && ni.Releasing.gpus == old(ni.Releasing.gpus)
+//@   ensures [noop] task.ResourceReceivedType != "Fraction" ==> forall g string :: ni.UsedSharedGPUsMemory[g] == old(ni.UsedSharedGPUsMemory[g]) && ni.ReleasingSharedGPUsMemory[g] == old(ni.ReleasingSharedGPUsMemory[g]) && ni.AllocatedSharedGPUsMemory[g] == old(ni.AllocatedSharedGPUsMemory[g]) && markedReleasing(ni, g) == old(markedReleasing(ni, g))
+//@   ensures [noopGpus] task.ResourceReceivedType != "Fraction" || len(task.GPUGroups) == 0 ==> ni.Idle.gpus == old(ni.Idle.gpus) && ni.Releasing.gpus == old(ni.Releasing.gpus)
+//@   ensures [others] forall g string :: !inGroups(task, g) ==> ni.UsedSharedGPUsMemory[g] == old(ni.UsedSharedGPUsMemory[g]) && ni.ReleasingSharedGPUsMemory[g] == old(ni.ReleasingSharedGPUsMemory[g]) && ni.AllocatedSharedGPUsMemory[g] == old(ni.AllocatedSharedGPUsMemory[g]) && markedReleasing(ni, g) == old(markedReleasing(ni, g)) && (g in ni.AllocatedSharedGPUsMemory <==> old(g in ni.AllocatedSharedGPUsMemory))
+//@   ensures [used] task.ResourceReceivedType == "Fraction" && distinctGroups(task) ==> forall i int :: 0 <= i && i < len(task.GPUGroups) ==> ni.UsedSharedGPUsMemory[task.GPUGroups[i]] == old(ni.UsedSharedGPUsMemory[task.GPUGroups[i]]) + needMem(ni, task.ResReq)
+//@   ensures [releasing] task.ResourceReceivedType == "Fraction" && distinctGroups(task) ==> forall i int :: 0 <= i && i < len(task.GPUGroups) ==> ni.ReleasingSharedGPUsMemory[task.GPUGroups[i]] == old(ni.ReleasingSharedGPUsMemory[task.GPUGroups[i]]) + relDelta(ni, task)
+//@   ensures [allocated] task.ResourceReceivedType == "Fraction" && distinctGroups(task) ==> forall i int :: 0 <= i && i < len(task.GPUGroups) ==> ni.AllocatedSharedGPUsMemory[task.GPUGroups[i]] == old(ni.AllocatedSharedGPUsMemory[task.GPUGroups[i]]) + allocDelta(ni, task)
+//@   ensures nodeWF(ni)
+//@ end
+
+// ---- C01 top level: bind only what fits Idle ---------------------------------------------------------------
+// Storage-capacity checks are opaque for this verification (DESIGN C01: assumed): they read the node and the task only.
+//@ func (*NodeInfo).isTaskStorageAllocatable
+//@   props C01
+//@   trusted
+//@   note CSI storage-capacity check (loops over claims/capacities, multierr, fmt.Errorf) is outside the property; assumed read-only
+//@   requires ni != nil && task != nil
+//@   pure
+//@ end
+//@ func (*NodeInfo).isTaskStorageAllocatableOnReleasingOrIdle
+//@   props C01
+//@   trusted
+//@   note CSI storage-capacity check is outside the property; assumed read-only
+//@   requires ni != nil && task != nil
+//@   pure
+//@ end
+
+// a best-effort task requests nothing (no resources above the minimal quantities, no storage claims, no GPU memory)
+//@ define bestEffort(task *pod_info.PodInfo) bool = ri.reqEmpty(task.ResReq) && len(task.storageClaims) == 0 && task.ResourceRequestType != "GpuMemory"
+// the request fits the amount `avail` of this node (whole/MIG: completely; fractional: cpu/memory/scalars + devices)
+//@ define fitsAmount(ni *NodeInfo, task *pod_info.PodInfo, avail *ri.Resource) bool = ite(task.ResourceRequestType == "Regular" || task.ResourceRequestType == "MigInstance", fitsNodeRes(ni, task.ResReq, avail), ri.fitsBase(task.ResReq.BaseResource, avail.BaseResource) && validPortion(ni, task.ResReq) && (floor(avail.gpus) >= task.ResReq.count || exists g in ni.UsedSharedGPUsMemory :: fitsGpuGroup(ni, task.ResReq, g)))
+
+// C01 (top level): "Capacity held by pods that are only terminating ... is never handed to a bind": a task is allocatable
+// (bindable now) only if it is best-effort or its request fits what is *Idle* on the node - not Idle + Releasing.
+//@ func (*NodeInfo).IsTaskAllocatable
+//@   props C01
+//@   requires nodeReadable(ni) && taskReadable(task)
+//@   pure
+//@   ensures [top] result ==> bestEffort(task) || fitsAmount(ni, task, ni.Idle)
+//@   ensures [regularExact] !bestEffort(task) && (task.ResourceRequestType == "Regular" || task.ResourceRequestType == "MigInstance") && !fitsNodeRes(ni, task.ResReq, ni.Idle) ==> !result
+//@   ensures [bestEffortAlways] bestEffort(task) ==> result
+//@ end
+
+// Idle + Releasing, component-wise (a scalar whose sum is 0 is absent: Resource.Add drops zero entries)
+//@ define sumScalar(ni *NodeInfo, k v1.ResourceName) int = ni.Idle.scalarResources[k] + ni.Releasing.scalarResources[k]
+//@ define sumHas(ni *NodeInfo, k v1.ResourceName) bool = ite(k in ni.Releasing.scalarResources, sumScalar(ni, k) != 0, k in ni.Idle.scalarResources && ni.Idle.scalarResources[k] != 0)
+
+//@ func (*NodeInfo).NonAllocatedResources
+//@   props C01 C14
+//@   requires ni != nil && ni.Idle != nil && ni.Releasing != nil
+//@   fresh
+//@   ensures result.milliCpu == ni.Idle.milliCpu + ni.Releasing.milliCpu && result.memory == ni.Idle.memory + ni.Releasing.memory && result.gpus == ni.Idle.gpus + ni.Releasing.gpus
+//@   ensures forall k v1.ResourceName :: result.scalarResources[k] == sumScalar(ni, k) && (k in result.scalarResources <==> sumHas(ni, k))
+//@ end
+
+//@ func (*NodeInfo).NonAllocatedResource
+//@   props C01 C14
+//@   requires ni != nil && ni.Idle != nil && ni.Releasing != nil
+//@   pure
+//@   ensures result == ni.Idle.Get(resourceType) + ni.Releasing.Get(resourceType)
+//@ end
+
+// C01 (pipelining side): a task may be nominated on capacity that is idle or being released; whole-GPU/MIG requests
+// must fit Idle + Releasing completely.
+//@ func (*NodeInfo).IsTaskAllocatableOnReleasingOrIdle
+//@   props C01
+//@   requires nodeReadable(ni) && taskReadable(task)
+//@   ensures [cpuMem] result ==> task.ResReq.milliCpu <= ni.Idle.milliCpu + ni.Releasing.milliCpu && task.ResReq.memory <= ni.Idle.memory + ni.Releasing.memory
+//@   ensures [scalars] result ==> forall k in task.ResReq.scalarResources :: sumHas(ni, k) && task.ResReq.scalarResources[k] <= sumScalar(ni, k)
+//@   ensures [gpus] result && (task.ResourceRequestType == "Regular" || task.ResourceRequestType == "MigInstance") ==> ri.reqGpus(task.ResReq.GpuResourceRequirement) + real(task.ResReq.GetDraGpusCount()) <= ni.Idle.gpus + ni.Releasing.gpus
+//@   ensures [mig] result && (task.ResourceRequestType == "Regular" || task.ResourceRequestType == "MigInstance") ==> forall k in task.ResReq.migResources :: sumHas(ni, k) && task.ResReq.migResources[k] <= sumScalar(ni, k)
+//@   ensures [fraction] result && !(task.ResourceRequestType == "Regular" || task.ResourceRequestType == "MigInstance") ==> validPortion(ni, task.ResReq) && (floor(ni.Idle.gpus + ni.Releasing.gpus) >= task.ResReq.count || exists g in ni.UsedSharedGPUsMemory :: fitsGpuGroup(ni, task.ResReq, g))
+//@ end
